@@ -46,6 +46,18 @@ def safe_inline(fnode, exclude=()):
     return out
 
 
+def note(ctx, f, n, keys):
+    """Record a finite-domain evaluation in the evidence statistics."""
+    st = getattr(ctx, 'stats', None)
+    if st is None:
+        st = ctx.stats = {}
+    st['decision_table_valuations'] = st.get(
+        'decision_table_valuations', 0) + n
+    st.setdefault('decision_tables', []).append(
+        '%s (%d valuations over %s)' % (f.qname, n,
+                                        ', '.join(keys)[:160]))
+
+
 class Table(object):
     def __init__(self, ctx, f, variables, constraint=None, extra_vars=(),
                  inline_exclude=(), types=None, mutable=()):
@@ -76,6 +88,7 @@ class Table(object):
             self.cfg, f, self.all_vars, init=init,
             ghost=set(self.keys) - set(mutable),
             inline=self.inline, types=types)
+        note(ctx, f, len(init), self.keys)
         self.frame = Frame(f.module, {}, None, f)
         for name, expr in self.inline.items():
             self.frame.subst[name] = (expr, self.frame)
